@@ -2234,6 +2234,11 @@ impl Exec {
                 }
             }
         }
+        // trailing bytes after the arguments (Anchor ignores them; anything that inspects instruction data must not)
+        let mut data = data;
+        if let Some(n) = u64o(a, "pad") {
+            data.extend(std::iter::repeat(0u8).take(n as usize));
+        }
         let mut ixn = Instruction { program_id: marginfi::ID, accounts: metas, data };
         if boolo(a, "cpi") == Some(true) || s(a, "cpi_via").is_some() {
             // wrap: wrapper program forwards to marginfi ("cpi_via": "mocks" = the registered third-party program of id 10001)
